@@ -512,6 +512,11 @@ def _ham(rng, n, nterms, steps, exact=True, special=True):
         if not exact and co == 0:
             co = Fraction(1, 16)
         ct = rng.choice(["float", "float", "complex", "int" if co.denominator == 1 else "float"])
+        if special and terms and ops == terms[-1]["ops"] and rng.random() < 0.5:
+            # the SAME term listed twice (same operators and the same coefficient)
+            terms.append({"ops": [list(o) for o in terms[-1]["ops"]], "coeff": list(terms[-1]["coeff"]),
+                          "ctype": terms[-1]["ctype"]})
+            continue
         terms.append({"ops": ops, "coeff": [rat(co), 0], "ctype": ct})
     if exact:
         mp = rng.choice([1, 1, 2])
